@@ -68,6 +68,8 @@ type Sym struct {
 	// gRPC
 	Code      uint32
 	RetryInfo bool          // status carries a RetryInfo detail ...
+	DetailFirst bool // gRPC: an unrelated error detail precedes the RetryInfo in the status
+	NilDelay    bool // gRPC: RetryInfo without a RetryDelay (a zero delay)
 	Delay     time.Duration // ... with this RetryDelay (a Hint only where the statement allows a retry)
 	// partial success content
 	Rejected int64
@@ -1522,6 +1524,36 @@ func (d *driver) agedJob() {
 	}
 }
 
+// sweepJob: "each status code" -- one-answer scripts over EVERY HTTP status 200..599 (the alphabet
+// holds samples): 2xx is a success, 429 / 502 / 503 / 504 are retried, every other status ends the
+// call at that attempt with an error. No Location header, so a 3xx is handed to the caller as it is.
+func (d *driver) sweepJob() {
+	if !d.tg.HTTP {
+		return
+	}
+	var cfg Config
+	for _, c := range d.cfgs {
+		if c.Name == "nolimit" {
+			cfg = c
+		}
+	}
+	d.r.Bound("status_sweep", "every HTTP status 200..599 as a one-answer script, configuration nolimit")
+	for code := 200; code <= 599; code++ {
+		if d.halt || d.r.Expired() {
+			return
+		}
+		cl, grp := NonRetryable, "HTTP status outside 2xx and outside 429/502/503/504"
+		switch {
+		case code <= 299:
+			cl, grp = Success, "success"
+		case code == 429 || code == 502 || code == 503 || code == 504:
+			cl, grp = Retryable, "HTTP "+strconv.Itoa(code)
+		}
+		sym := &Sym{Name: strconv.Itoa(code), Group: grp, Class: cl, Status: code}
+		d.visit(script{word: []*Sym{sym}}, cfg, true)
+	}
+}
+
 var (
 	once sync.Once
 	dump = os.Getenv("VERIF_C14_DUMP") != ""
@@ -1536,7 +1568,7 @@ func Run(t *testing.T, tg Target) {
 			alpha = append(alpha, s)
 		}
 	}
-	names := []string{"short", "realwait", "aged", "elapsed"}
+	names := []string{"short", "realwait", "aged", "elapsed", "status-sweep"}
 	for _, s := range alpha {
 		names = append(names, "first-"+s.Name)
 	}
@@ -1559,6 +1591,8 @@ func Run(t *testing.T, tg Target) {
 			d.agedJob()
 		case job == "elapsed":
 			d.elapsedJob()
+		case job == "status-sweep":
+			d.sweepJob()
 		default:
 			for _, s := range alpha {
 				if "first-"+s.Name == job {
